@@ -233,8 +233,8 @@ def run(ctx):
             e['model_res'] = t['a']['res']
     nwalk = len(walks)
     # 3. code -> spec: long random edit histories
-    nhist = ctx.pick(20, 400)
-    nedit = ctx.pick(100, 250)
+    nhist = ctx.pick(20, 120)
+    nedit = ctx.pick(100, 200)
     for h in range(nhist):
         d.fresh()
         hot = sorted(set(pick_line(rng, [], []) for _ in range(rng.randint(4, 14))))
